@@ -270,6 +270,8 @@ func cmdCheck(args []string) int {
 	witnessObs := map[string][]ObservedVal{}
 	witnessEntry := map[string]int{}
 	schedViolations := []string{}
+	allAsserts := map[string]bool{}
+	assertsHit := map[string]int{}
 
 	for ei, es := range spec.Entries {
 		if es.Tier != "both" && es.Tier != *tier && !(es.Tier == "" && *tier == "quick") {
@@ -358,9 +360,12 @@ func cmdCheck(args []string) int {
 			inconclusive = append(inconclusive, es.Entry+": VACUOUS - no feasible path reaches the end of the harness")
 		}
 		for m := range assertMessages(fn) {
-			if res.Asserts[m] == 0 && knownID(m) == "" {
-				inconclusive = append(inconclusive, fmt.Sprintf("%s: VACUOUS - assertion %q is never reached", es.Entry, m))
+			if knownID(m) == "" {
+				allAsserts[m] = true
 			}
+		}
+		for m, n := range res.Asserts {
+			assertsHit[m] += n
 		}
 		if es.ExpectNd && res.NdSources > 0 {
 			// handled by harness assertions; recorded only
@@ -400,6 +405,11 @@ func cmdCheck(args []string) int {
 			}
 		}
 		reports = append(reports, rep)
+	}
+	for m := range allAsserts {
+		if assertsHit[m] == 0 && *only == "" {
+			inconclusive = append(inconclusive, fmt.Sprintf("VACUOUS - assertion %q is never reached by any entry of this tier", m))
+		}
 	}
 	if len(reports) == 0 {
 		fmt.Printf("INCONCLUSIVE property=%s no entries for tier %s\n", id, *tier)
